@@ -65,3 +65,10 @@ VARIANTS = [
          old="                if current_heartbeat - heartbeat > timedelta(seconds=grace_period):\n                    stale_trial_ids.append(trial.trial_id)\n",
          new="                if current_heartbeat - heartbeat <= timedelta(seconds=grace_period):\n                    continue\n                stale_trial_ids.append(trial.trial_id)\n"),
 ]
+
+HB19 = "optuna/storages/_heartbeat.py"
+VARIANTS += [
+    dict(id="c19-lost-race-ends-the-sweep", prop="C19", file=HB19, expect="R19.2",
+         old="    for trial_id in storage._get_stale_trial_ids(study._study_id):\n        try:\n            if storage.set_trial_state_values(trial_id, state=TrialState.FAIL):\n                failed_trial_ids.append(trial_id)\n        except optuna.exceptions.UpdateFinishedTrialError:\n",
+         new="    try:\n        for trial_id in storage._get_stale_trial_ids(study._study_id):\n            if storage.set_trial_state_values(trial_id, state=TrialState.FAIL):\n                failed_trial_ids.append(trial_id)\n    except optuna.exceptions.UpdateFinishedTrialError:\n        if True:\n"),
+]
